@@ -29,14 +29,15 @@ StagesNarrow == {
   St("filter", "T"),
   Slice("limit", 0, 2, 1), Slice("slice", 0, 4, 2),
   St("takewhile", "lt2"), St("dropwhile", "lt2"),
-  Stage("chunked", "", 2, 0, 0, N0), Stage("chunked", "", 3, 1, 0, N0),
+  Stage("chunked", "", 2, 0, 0, N0),
   Stage("windowed", "", 2, 0, 0, N0),
   Stage("split", "none", 0, -1, 0, N0),
-  St("unique", "T"), St("unique", "mod2"),
+  St("unique", "T"),
   St("flatten", "") }
 StagesWide == StagesNarrow \cup {
+  Stage("chunked", "", 3, 1, 0, N0), St("unique", "mod2"),
   St("map", "dup"), St("map", "T"), St("map", "stop_at2"), St("filter", "odd"), St("filter", "lt2"),
-  Slice("slice", 1, 4, 1), Slice("slice", 1, -1, 2), Slice("slice", 2, 3, 1), Slice("limit", 0, 0, 1),
+  Slice("slice", 1, 4, 1), Slice("slice", 1, -1, 2), Slice("slice", 2, 3, 1), Slice("slice", 2, 1, 1), Slice("limit", 0, 0, 1),
   St("takewhile", "T"), St("dropwhile", "T"), St("dropwhile", "odd"),
   Stage("chunked", "", 2, 1, 0, VInt(0)), Stage("windowed", "", 3, 0, 0, N0), Stage("windowed", "", 1, 0, 0, N0),
   Stage("split", "scalar", 0, 1, 0, VInt(0)), Stage("split", "set", 0, -1, 0, N0), Stage("split", "none", 0, 2, 0, N0) }
@@ -44,7 +45,8 @@ Stages == IF Wide THEN StagesWide ELSE StagesNarrow
 
 BasesNarrow == { BaseStage("T", STOP, FALSE), BaseStage("skip_odd", STOP, FALSE), BaseStage("T", VInt(0), TRUE) }
 BasesWide == BasesNarrow \cup { BaseStage("inc", VInt(3), TRUE), BaseStage("stop_at2", STOP, FALSE),
-                                BaseStage("T", N0, TRUE), BaseStage("dup", STOP, FALSE) }
+                                BaseStage("T", N0, TRUE), BaseStage("dup", STOP, FALSE),
+                                BaseStage("stop_at2", VInt(0), TRUE) }
 Bases == IF Wide THEN BasesWide ELSE BasesNarrow
 
 Fin(items) == [kind |-> "fin", items |-> items]
@@ -117,10 +119,18 @@ GrowPull == /\ phase = 0 /\ Len(pipe) <= MaxStages
 StartPull == /\ phase = 0 /\ ~pred.bad /\ phase' = 1
              /\ StartRun(pipe, srcd, kmax)
              /\ UNCHANGED <<pred, objs, cells, bhist>>
-StepPull == /\ phase = 1 /\ PullStep /\ UNCHANGED <<phase, pred, objs, cells, bhist>>
+KeepRest == UNCHANGED <<phase, pred, objs, cells, bhist>>
+\* one named action per critical section of the machine (so that coverage shows each is taken)
+PConsumerPull == phase = 1 /\ ConsumerPull /\ KeepRest
+PPrefill   == phase = 1 /\ (\E i \in 1..M : Prefill(i)) /\ KeepRest
+PBuild     == phase = 1 /\ (\E i \in 1..M : Build(i)) /\ KeepRest
+PStagePull == phase = 1 /\ (\E i \in 1..M : StagePull(i)) /\ KeepRest
+PEmit      == phase = 1 /\ (\E i \in 1..M : Emit(i)) /\ KeepRest
+PEnd       == phase = 1 /\ (\E i \in 1..M : End(i)) /\ KeepRest
+StepPull == PConsumerPull \/ PPrefill \/ PBuild \/ PStagePull \/ PEmit \/ PEnd
 FinishPull == /\ phase = 1 /\ Halted /\ phase' = 2
               /\ UNCHANGED <<pred, pipe, srcd, kmax, loc, pos, srcEnded, outs, fin, ctl, built, nreq, ev, objs, cells, bhist>>
-NextPull == GrowPull \/ StartPull \/ StepPull \/ FinishPull
+NextPull == GrowPull \/ StartPull \/ PConsumerPull \/ PPrefill \/ PBuild \/ PStagePull \/ PEmit \/ PEnd \/ FinishPull
 SpecPull == InitPull /\ [][NextPull]_vars /\ WF_vars(StepPull \/ FinishPull)
 InsideHorizon == pos <= Horizon
 
@@ -144,9 +154,7 @@ BuildPred(os, cs) ==
      LET mn == Meaning(os[j], cs) IN
      [cls |-> mn.cls, pos |-> mn.pos, kw |-> mn.kw,
       outs |-> IF mn.cls = "iter"
-               THEN [p \in 1..Len(Probes) |-> LET X == Out(mn.pipe, Probes[p], TRUE)
-                                                  A == Out(SentinelForgotten(mn.pipe), Probes[p], TRUE)
-                                              IN [xs |-> X.xs, bad |-> X.bad, alt |-> A.xs]]
+               THEN [p \in 1..Len(Probes) |-> LET X == Out(mn.pipe, Probes[p], TRUE) IN [xs |-> X.xs, bad |-> X.bad]]
                ELSE <<>>]]
 BBases == { BaseStage("T", STOP, FALSE), BaseStage("T", VInt(0), TRUE), BaseStage("skip_odd", VInt(3), TRUE) }
 IterMeths == { IterMeth(St("map", "inc")), IterMeth(Slice("limit", 0, 2, 1)), IterMeth(St("filter", "T")),
@@ -161,11 +169,14 @@ InitBuild == /\ phase = 0 /\ kmax = 0 /\ pipe = <<>> /\ srcd = Fin(<<>>) /\ NoPu
              /\ cells = << <<>>, <<>> >>
              /\ \E b \in BBases : objs = << IterObj(b.f, b.v, b.b = 1, 1), InvokeObj(2, <<>>) >>
              /\ pred = BuildPred(objs, cells)
-NextBuild == /\ Len(bhist) < MaxDerive
-             /\ \E o \in 1..Len(objs) :
-                  \E meth \in (IF objs[o].cls = "iter" THEN IterMeths ELSE InvMeths) : Derive(o, meth)
-             /\ pred' = BuildPred(objs', cells')
-             /\ UNCHANGED <<phase, pipe, srcd, kmax, loc, pos, srcEnded, outs, fin, ctl, built, nreq, ev>>
+DeriveFrom(cls, meths) ==
+  /\ Len(bhist) < MaxDerive
+  /\ \E o \in 1..Len(objs) : objs[o].cls = cls /\ \E meth \in meths : Derive(o, meth)
+  /\ pred' = BuildPred(objs', cells')
+  /\ UNCHANGED <<phase, pipe, srcd, kmax, loc, pos, srcEnded, outs, fin, ctl, built, nreq, ev>>
+BDeriveIter == DeriveFrom("iter", IterMeths)
+BDeriveInvoke == DeriveFrom("invoke", InvMeths)
+NextBuild == BDeriveIter \/ BDeriveInvoke
 LawFrame == [][BuildFrame]_vars
 LawExtends == BuildExtends(NInit)
 LawFresh == BuildFresh
